@@ -98,11 +98,17 @@ def generate(rng, tier):
             weights = [[rng.choice([1.0, 0.25, 4.0])] * npts for _ in range(ncomp)]
         elif weights is not None and rng.random() < 0.3:
             weights = [[float(rng.choice([1, 1, 4, 9, 16, 25])) for _ in range(npts)] for _ in range(ncomp)]      # whole numbers (handed over as an integer array, see impl)
+        if mode in ("unc", "wvar") and rng.random() < 0.3:
+            # two surveys of very different quality side by side (sigma 1e-4 next to sigma 100): the weights change by many orders of magnitude
+            # ACROSS the region and little within a block; every block's mean and variance are its own
+            w_, e_ = reg[0], reg[1]
+            weights = [[10.0 ** (2 * round(5 * (x - w_) / max(e_ - w_, 1e-9)) - 4) * rng.choice([1.0, 2.0, 4.0]) for x in es] for _ in range(ncomp)]
+            mode += "-scales"
         shape2d = [npts]
         if npts % 2 == 0 and rng.random() < 0.3:
             shape2d = [2, npts // 2]
         cs.append(mk_bm(coords, shape2d, data, weights, region, shape, spacing, adjust, rng.random() < 0.4, rng.random() < 0.5,
-                        mode in ("unc", "unc-noweights", "unc-noweights-tuple", "unc-constw"), "blockmean-" + mode))
+                        mode in ("unc", "unc-scales", "unc-noweights", "unc-noweights-tuple", "unc-constw"), "blockmean-" + mode))
     return cs
 
 
